@@ -242,6 +242,28 @@ fn model_keys(plan: &[PlanField], addr: &BTreeMap<String, (u64, u64, Value)>, al
   (keys.into_iter().map(|k| k.2).collect(), back)
 }
 
+/// plans that differ from `sort` in exactly one respect (label, sort spec list)
+fn neighbour_plans(sort: &Value) -> Vec<(String, Value)> {
+  // explicit form of the issuing plan
+  let plan = plan_of(sort);
+  let spec = |f: &PlanField, desc: bool| json!({"field": f.name, "order": if desc { "desc" } else { "asc" }});
+  let explicit: Vec<Value> = plan.iter().map(|f| spec(f, f.desc)).collect();
+  let mut out = Vec::new();
+  for (i, f) in plan.iter().enumerate() {
+    let mut v = explicit.clone();
+    v[i] = spec(f, !f.desc);
+    let kind = ["score", "kw", "i64", "f64"][f.kind as usize];
+    out.push((format!("flip.{kind}.{}", if plan.len() == 1 { "single" } else { "multi" }), Value::Array(v)));
+  }
+  if plan.len() >= 2 {
+    out.push(("drop_last".to_string(), Value::Array(explicit[..plan.len() - 1].to_vec())));
+    let mut v = explicit.clone();
+    v.swap(0, 1);
+    out.push(("swap_first_two".to_string(), Value::Array(v)));
+  }
+  out
+}
+
 // ---------------------------------------------------------------------------------------------
 // the harness's own reading of a real cursor (independent of the model)
 
@@ -1041,6 +1063,40 @@ impl C11 {
       }
     }
 
+    // ---- neighbouring plans: the same cursor against every plan that differs from the issuing
+    // plan in exactly one respect (one key's direction flipped — including a `_score` key inside
+    // a multi-key plan —, the last key dropped, the first two keys swapped).  Every one is
+    // another sort order and must reject the cursor (finder); the model's decode under the
+    // neighbour's plan hash is compared as well (correspondence). ----
+    for (what, nsort) in neighbour_plans(&sort) {
+      let nplan = plan_of(&nsort);
+      if nplan == plan {
+        continue;
+      }
+      s.count(&format!("neighbour_plan.{what}"));
+      let real = run(&reader, &base_req(case, &nsort, limit, Some(&c1)));
+      match &real {
+        Out::Panic(msg) => {
+          s.fail("cursor.panic-on-ascii-cursor", "search panicked on a replayed cursor", case, json!({"cursor": c1, "sort": nsort, "panic": msg}));
+          continue;
+        }
+        Out::Ok(_) => {
+          s.fail("cursor.accepted-by-other-sort-plan", "a cursor was accepted although the index or the sort plan changed", case, json!({"post": format!("neighbour plan: {what}"), "issued_under": sort, "replayed_under": nsort, "cursor": c1, "response": real.to_json()}));
+        }
+        Out::Err(_) => {}
+      }
+      let nph = drv.call("C11", json!({"op": "plan_hash", "fields": plan_json(&nplan)}));
+      let nreq = json!({"generation": real_gen, "plan_hash": nph["hash"], "plan_len": nplan.len(), "score_fast": is_score_fast(&nplan)});
+      let md = drv.call("C11", json!({"op": "decode", "raw": c1, "req": nreq}));
+      if md["class"] != json!("error") || real.class() != "error" {
+        // the model must reject too (distinct plan bytes ⇒ distinct CRC for these short strings);
+        // anything else is a disagreement between model and implementation or a CRC collision
+        if md["class"].as_str() != Some(real.class()) {
+          s.disagree("cursor.neighbour-plan-decode", case, json!({"sort": nsort, "real": real.to_json()}), md.clone());
+        }
+      }
+    }
+
     // ---- stale cursors: the index changes (or the plan does), the page-1 cursor is replayed ----
     let post = case["post"].as_str().unwrap_or("none").to_string();
     let pick = case["post_pick"].as_u64().unwrap_or(0) as usize;
@@ -1223,8 +1279,9 @@ impl C11 {
         if p.ids.len() != n && p.next.is_none() {
           s.fail("all.silently-truncated-large-limit", "a single request with limit >= matches returned fewer hits than matches and no next_cursor", case, json!({"matches": n, "hits": p.ids.len(), "total_hits_estimate": p.total, "next_cursor": p.next}));
         } else if p.ids.len() != n {
-          // truncated but resumable: follow the cursor and count
-          let mut got = p.ids.len();
+          // served in pages (reader.rs since 7ad6649): follow the cursor; the concatenation must
+          // be every match in key order (n % 7 ascending, then document order)
+          let mut got: Vec<String> = p.ids.clone();
           let mut cur = p.next.clone();
           let mut guard = 0;
           while let Some(cu) = cur {
@@ -1234,8 +1291,11 @@ impl C11 {
             }
             match run(&reader, &base_req(&c, &case["sort"], n + 5, Some(&cu))) {
               Out::Ok(q) => {
-                got += q.ids.len();
+                got.extend(q.ids.iter().cloned());
                 cur = q.next.clone();
+                if q.total != n as u64 {
+                  s.fail("total.inexact-bm25", "total_hits_estimate is not exact for execution bm25", case, json!({"total": q.total, "truth": n, "page": guard}));
+                }
               }
               o => {
                 s.fail("walk.page-error", "a page of the walk failed although the index did not change", case, o.to_json());
@@ -1243,8 +1303,13 @@ impl C11 {
               }
             }
           }
-          if got != n {
-            s.fail("walk.missing", "the concatenated pages differ from the number of matches", case, json!({"matches": n, "hits": got}));
+          let mut ks: Vec<(i64, u64)> = (0..n as u64).map(|k| ((k % 7) as i64, k)).collect();
+          ks.sort();
+          let want: Vec<String> = ks.iter().map(|(_, k)| format!("b{k:06}")).collect();
+          if got.len() != n {
+            s.fail("walk.missing", "the concatenated pages differ from the number of matches", case, json!({"matches": n, "hits": got.len()}));
+          } else if got != want {
+            s.fail("walk.order", "the concatenated pages differ from the single request covering all matches", case, json!({"first_difference": got.iter().zip(want.iter()).position(|(a, b)| a != b)}));
           }
         }
         if p.total != n as u64 {
@@ -1261,7 +1326,7 @@ impl Prop for C11 {
     "C11"
   }
   fn rule(&self) -> &'static str {
-    "case = (1-4 commit batches = segments over a schema with text body, fast keyword tag, fast i64 n, fast f64 x; missing / single / multi values from small domains, cloned batches for score ties across segments, optional delete-only commit; query match_all | term | 1-4 words; sort plan default | _score asc/desc | 1-3 of {_score,tag,n,x} with asc/desc/default; page size 1..7; execution wand|bm25; one post operation commit_add | delete_only | delete_cursor_doc | compact | other_sort | reopen; 6 random ASCII cursor mutations + the advance cap 50000/50001). Non-trivial = the walk has >= 2 pages AND at least two matches tie on the primary sort value; distinct = distinct case JSON. The corpus adds one case per finding, among them a single request with limit > 20000 over 20011 matches."
+    "case = (1-4 commit batches = segments over a schema with text body, fast keyword tag, fast i64 n, fast f64 x; missing / single / multi values from small domains, cloned batches for score ties across segments, optional delete-only commit; query match_all | term | 1-4 words; sort plan default | _score asc/desc | 1-3 of {_score,tag,n,x} with asc/desc/default; page size 1..7; execution wand|bm25; one post operation commit_add | delete_only | delete_cursor_doc | compact | other_sort | reopen; the page-1 cursor is also replayed against every neighbouring plan (one key direction flipped incl. _score inside multi-key plans, last key dropped, first two keys swapped); 6 random ASCII cursor mutations + the advance cap 50000/50001). Non-trivial = the walk has >= 2 pages AND at least two matches tie on the primary sort value; distinct = distinct case JSON. The corpus adds one case per finding, among them a single request with limit > 20000 over 20011 matches."
   }
   fn count(&self, tier: Tier) -> usize {
     tier.pick(301, 6001)
